@@ -952,7 +952,6 @@ AVOID = [
     ("C07-byval-nested-write-lost", r"\|w\|par<val P>\.inner"),
     ("C07-method-wipes-members", r"\|recv\|P"),
     ("C07-self-writethrough-stale", r"^S.\|[^|]*\|(In|P|PS|ES)|^S.\|[^|]*\|\*\("),
-    ("C07-callee-global-nested-write-lost", r"^[FS].\|w\|(P|PS\[\])\.inner"),
     # --- documented / front-end restrictions (not defects): T& and T[n] arguments must be plain variables,
     #     a member expression cannot be passed to a struct parameter
     ("restriction-ref-arg-plain-variable", r"\|argref\|.*[.\[*]"),
@@ -970,3 +969,133 @@ def avoid_id(sig):
 
 def allow_main(sig):
     return avoid_id(sig) is None
+
+
+# ------------------------------------------------------------------ hand-written cases (known findings, corpus)
+class Build:
+    """Small builder for hand-written histories: computes locations and form signatures like the generator."""
+
+    def __init__(self, place="local"):
+        self.g = Gen(random.Random(0), lambda s: True, place)
+        self.sty = {"arrow": True, "ivar": False}
+
+    def v(self, name):
+        for i, (n, _) in enumerate(VARS):
+            if n == name:
+                return ("v", i)
+        if name.startswith("c"):
+            return ("v", int(name[1:]))
+        raise KeyError(name)
+
+    def path(self, text, pnames=None):
+        """'a.inner.v' 'ps[1].s' '*pp' 'pp->s' 'q0.arr[1]' 'self.v' '(*q0).s' -> access expression"""
+        t = text.replace("->", "~")
+        m = re.match(r"^\(?\*([A-Za-z0-9_]+)\)?(.*)$", t)
+        if m:
+            base = ("d", self._root(m.group(1)))
+            rest = m.group(2)
+        else:
+            m = re.match(r"^([A-Za-z0-9_]+)(.*)$", t)
+            base = self._root(m.group(1))
+            rest = m.group(2)
+        env = TypeEnv(self.g.vt, self._pt)
+        for tok in re.findall(r"~[a-z]+|\.[a-z]+|\[\d\]", rest):
+            if tok[0] == "~":
+                base = ("d", base)
+                tok = "." + tok[1:]
+            ty = env.typeof(base)
+            if tok[0] == "[":
+                base = ("f", base, int(tok[1]))
+            else:
+                names = [n for n, _ in STRUCTS[ty]]
+                base = ("f", base, names.index(tok[1:]))
+        return base
+
+    _pt = ()
+    _pn = ()
+
+    def _root(self, name):
+        if name in self._pn:
+            return ("par", list(self._pn).index(name))
+        return self.v(name)
+
+    def _sig(self, ctx, role, a, fr=(), pmodes=None):
+        return self.g.sig(ctx, role, a, TypeEnv(self.g.vt, self._pt), list(fr), pmodes, self.sty)
+
+    def _sop(self, ctx, spec, fr=(), pmodes=None):
+        k = spec[0]
+        if k == "w":
+            a = self.path(spec[1])
+            return {"k": "w", "a": a, "z": spec[2], "sty": self.sty, "sigs": [self._sig(ctx, "w", a, fr, pmodes)]}
+        if k == "cp":
+            d, s = self.path(spec[1]), self.path(spec[2])
+            ty = TypeEnv(self.g.vt, self._pt).typeof(d)
+            return {"k": "cp", "d": d, "s": s, "ty": ty, "sty": self.sty, "sty2": self.sty,
+                    "sigs": [self._sig(ctx, "cpd", d, fr, pmodes), self._sig(ctx, "cps", s, fr, pmodes)]}
+        if k == "addr":
+            p, t = self.path(spec[1]), self.path(spec[2])
+            return {"k": "addr", "p": p, "t": t, "sty": self.sty, "sigs": [self._sig(ctx, "addr", t, fr, pmodes)]}
+        if k == "rd":
+            form = spec[2] if len(spec) > 2 else "plain"
+            es = [self.path(x) for x in spec[1]]
+            self.g.next_id += 1
+            return {"k": "rd", "id": self.g.next_id, "as": es, "form": form, "stys": [self.sty] * len(es),
+                    "sigs": [self._sig(ctx, "r-" + form, a, fr, pmodes) for a in es]}
+        raise ValueError(k)
+
+    def op(self, *spec):
+        self.g.emit(self._sop("M", spec))
+        return self
+
+    def decl(self, src, ty):
+        a = self.path(src)
+        self.g.emit({"k": "decl", "s": a, "ty": ty, "sty": self.sty, "sigs": [self._sig("M", "decl", a)]})
+        return self
+
+    def call(self, params, body, ret=None):
+        """params: [(mode, type, 'arg path')]; body: statement specs using q0.. / self; ret: (expr, dest|None, type)"""
+        g = self.g
+        ps, pt, pm, pn = [], [], [], []
+        for i, (mode, ty, arg) in enumerate(params):
+            a = self.path(arg)
+            role = {"self": "recv", "pval": "argpval"}.get(mode, "arg" + mode)
+            ps.append({"mode": mode, "ty": ty, "arg": a, "sty": self.sty, "sig": self._sig("M", role, a)})
+            pt.append(("*" + ty) if mode in ("ptr", "pval") else ty)
+            pm.append(mode)
+            pn.append("self" if mode == "self" else "q%d" % i)
+        call = {"k": "call", "fid": g.next_fid, "params": ps, "body": [], "ret": None, "sigs": [p["sig"] for p in ps]}
+        g.next_fid += 1
+        trial = copy.deepcopy(g.sh)
+        n0 = len(trial.h)
+        trial.op(call)
+        fr = []
+        for i, p in enumerate(ps):
+            fr.append((n0 + i, ()) if p["mode"] in ("val", "pval", "ptr") else g.sh.resolve(p["arg"], []))
+        saved = g.sh
+        g.sh = trial
+        self._pt, self._pn = pt, pn
+        ctx = "S" if pm[0] == "self" else "F"
+        for spec in body:
+            s = self._sop(ctx, spec, fr, pm)
+            trial.sop(s, fr)
+            call["body"].append(s)
+            call["sigs"] += s["sigs"]
+        if ret:
+            e = self.path(ret[0])
+            r = {"e": e, "d": None, "ty": ret[2], "sty": self.sty, "sigs": [self._sig(ctx, "ret", e, fr, pm)]}
+            self._pt, self._pn = (), ()
+            g.sh = saved
+            if ret[1] is not None:
+                d = self.path(ret[1])
+                r["d"] = d
+                r["sty2"] = self.sty
+                r["sigs"].append(self._sig("M", "retd", d))
+            call["ret"] = r
+            call["sigs"] += r["sigs"]
+        self._pt, self._pn = (), ()
+        g.sh = saved
+        g.emit(call)
+        return self
+
+    def case(self):
+        return {"place": self.g.place, "ops": self.g.ops}
